@@ -29,6 +29,9 @@ pub enum Op {
     /// helper process continues it). The registry - and the library's handler with its flags -
     /// must be exactly as before.
     Emulate { sig: u8 },
+    /// a registration the OS refuses (signal number 1000, 65 or 0): returns an error and must leave
+    /// everything - registry, dispositions, the calling thread's signal mask - as it was
+    RegisterRefused { which: u8 },
 }
 
 /// default action of the pool's signals that does not end the process: 1 ignore, 2 stop
@@ -82,6 +85,7 @@ pub fn strategy(maxlen: usize) -> BoxedStrategy<C05Case> {
         1 => (0u8..20).prop_map(|sig| Op::UnregisterSignal { sig }),
         5 => (0u8..20).prop_map(|sig| Op::Deliver { sig }),
         1 => (0u8..20).prop_map(|sig| Op::Emulate { sig }),
+        1 => (0u8..3).prop_map(|which| Op::RegisterRefused { which }),
     ];
     (
         prop_oneof![2 => 1u8..4, 1 => 4u8..21],
@@ -182,6 +186,15 @@ fn child(case: &C05Case, fd: i32) {
                 } else {
                     rec["ran"] = json!("skipped");
                 }
+            }
+            Op::RegisterRefused { which } => {
+                let n = [1000, 65, 0][*which as usize % 3];
+                let r = std::panic::catch_unwind(|| unsafe { signal_hook_registry::register(n, || ()) });
+                rec["ret"] = json!(match r {
+                    Ok(Ok(_)) => "ok",
+                    Ok(Err(_)) => "err",
+                    Err(_) => "panic",
+                });
             }
             Op::Emulate { sig } => {
                 let s = POOL[*sig as usize % 20];
@@ -379,6 +392,12 @@ pub fn run_case(case: &C05Case) -> CaseReport {
                 }
                 if removed_any {
                     deliver_after_removal = true;
+                }
+            }
+            Op::RegisterRefused { .. } => {
+                rep.class("refused-registration-in-history");
+                if r["ret"] != "err" {
+                    rep.viol("C05/ret@register", format!("step {}: a registration the OS refuses returned {}", i, r["ret"]));
                 }
             }
             Op::Emulate { sig } => {
